@@ -3,6 +3,7 @@ import Sonic.Model.Schema
 import Sonic.Proofs.MergeDecEq
 import Sonic.Proofs.MergeSchema
 import Sonic.Proofs.MergeHandler
+import Sonic.Proofs.MergeCap
 
 /-!
 # C19 — `ParseSchema` updates exactly the members the existing document declares
@@ -121,6 +122,19 @@ theorem C19_handler_eq_spec_partial (cap : Nat) (e t : JVal) (hcap : nodes t ≤
     (ht : noDupKeys t = true) (hn : NoEmptyOverNonEmpty e t = true) : handler cap e t = .ok (0, schema e t) := by
   rw [C19_handler_refines cap e t hcap, apply_eq_schema e t he ht hn]
 
+/-- … for a TEXT: whenever the spec reader accepts `text` with value `t`, the stack that `SetUp` allocates for it
+    (`setUpCap text.length = max(16, len/2 + 2)`) has room, so `ParseSchema(text)` on ANY existing document `e` ends
+    with `err = 0`, no fault, and the document `apply e t`. -/
+theorem C19_handler_refines_text (text : List Nat) (e t : JVal) (hp : Sonic.Spec.Json.parse text = .ok t) :
+    handler (setUpCap text.length) e t = .ok (0, apply e t) :=
+  handler_eq_apply _ e t (Sonic.Proofs.MergeCap.nodes_le_setUpCap hp)
+
+/-- the statement for texts, on the complement of F12 -/
+theorem C19_text_eq_spec_partial (text : List Nat) (e t : JVal) (hp : Sonic.Spec.Json.parse text = .ok t)
+    (he : noDupKeys e = true) (ht : noDupKeys t = true) (hn : NoEmptyOverNonEmpty e t = true) :
+    handler (setUpCap text.length) e t = .ok (0, schema e t) := by
+  rw [C19_handler_refines_text text e t hp, apply_eq_schema e t he ht hn]
+
 /-! ## non-vacuity: the regression pairs of the fixed defects, through the literal machine -/
 
 private def u (n : Nat) : JVal := .num (.uint n)
@@ -134,17 +148,20 @@ def f15Text : JVal :=
 example : handler 16 f15Existing f15Text =
     .ok (0, .obj [([101], .num (.sint (-2))),
                   ([100], .obj [([97], .obj [([99], .bool false)]), ([101], u 1), ([99], .null)]),
-                  ([97], u 2)]) := by decide
-example : handler 16 f15Existing f15Text = .ok (0, schema f15Existing f15Text) := by decide
+                  ([97], u 2)]) := by decide +kernel
+example : handler 16 f15Existing f15Text = .ok (0, schema f15Existing f15Text) := by decide +kernel
 example : noDupKeys f15Existing = true ∧ noDupKeys f15Text = true ∧
-    NoEmptyOverNonEmpty f15Existing f15Text = true ∧ nodes f15Text ≤ 16 := by decide
+    NoEmptyOverNonEmpty f15Existing f15Text = true ∧ nodes f15Text ≤ 16 := by decide +kernel
 
 /-- F10: `{"k":{"x":5}}` + `{"k":[{"x":1}]}` -/
 def f10Existing : JVal := .obj [([107], .obj [([120], u 5)])]
 def f10Text : JVal := .obj [([107], .arr [.obj [([120], u 1)]])]
 
-example : handler 16 f10Existing f10Text = .ok (0, f10Text) := by decide
-example : schema f10Existing f10Text = f10Text := by decide
+example : handler 16 f10Existing f10Text = .ok (0, f10Text) := by decide +kernel
+/-- the hypothesis of `C19_handler_refines_text` on the bytes `{"k":[{"x":1}]}` -/
+example : Sonic.Spec.Json.parse [0x7B, 0x22, 0x6B, 0x22, 0x3A, 0x5B, 0x7B, 0x22, 0x78, 0x22, 0x3A, 0x31, 0x7D, 0x5D, 0x7D]
+    = .ok f10Text := by decide +kernel
+example : schema f10Existing f10Text = f10Text := by decide +kernel
 
 /-- repeated application through the machine: `{"a":1,"b":{"c":[1]}}`, then `{"b":{"c":{"d":null}},"z":0}`, then
     `{"b":{"c":{"d":[true]}}}` -/
@@ -153,6 +170,6 @@ example :
             (.obj [([98], .obj [([99], .obj [([100], .null)])]), ([122], u 0)]) with
      | .ok (_, d) => handler 16 d (.obj [([98], .obj [([99], .obj [([100], .arr [.bool true])])])])
      | .error f => .error f)
-    = .ok (0, .obj [([97], u 1), ([98], .obj [([99], .obj [([100], .arr [.bool true])])])]) := by decide
+    = .ok (0, .obj [([97], u 1), ([98], .obj [([99], .obj [([100], .arr [.bool true])])])]) := by decide +kernel
 
 end Sonic.Props.C19
